@@ -17,34 +17,42 @@ class C05(Prop):
     technique = ("Coq proof about an interleaving machine with one step per shared-memory access of bucket.rs (block size a parameter): "
                  "refinement of complete calls to a bag, protocol/chain invariants preserved by every step hence for every schedule and any "
                  "number of threads; schedule-replay correspondence on the real AtomicBucket through yield points at each atomic access")
-    level_text = ("Theorems (Coq, block size B a parameter, every B >= 1). Complete: C05_sequential_bag / C05_sequential_call - any sequence of "
-                  "complete push / data_with / clear_with / is_empty calls by any threads refines a bag kept as the list of block contents (push "
-                  "adds exactly its value, data_with hands out everything in chain order, clear_with hands out everything and empties, is_empty "
-                  "iff nothing is stored), and the run of a call alone is unique. For EVERY schedule, any number of threads and programs "
-                  "(invariant preserved by each atomic step, C05_conservation_partial): per slot, below the write index it is published or "
-                  "claimed by exactly one thread in flight, at or above it untouched (the write index counts the claims; claims are unique per "
-                  "block and index); a published bit implies a written slot; the thread about to publish finds its own value in its slot; what "
-                  "the read at site 506 hands to a callback are written slots below the published length (no read-before-written); the chain "
-                  "from tail is finite, strictly decreasing in block id (acyclic) and every block behind another is full. The open finding is "
-                  "a theorem (C05_late_claim_refutes), and so are the two repaired defects (model of the code before each fix violates spec_ok "
-                  "outside the late-claim class, the model after the fix does not). Tied to /repo by replaying generated schedules on the real "
+    level_text = ("Theorems (Coq, block size B a parameter, every B >= 1; 'every schedule' = invariants preserved by each atomic step, any "
+                  "number of threads and programs). (1) C05_sequential_bag / C05_sequential_call: any sequence of complete push / data_with / "
+                  "clear_with / is_empty calls by any threads refines a bag kept as the list of block contents (push adds exactly its value, "
+                  "data_with hands out everything in chain order, clear_with hands out everything and empties, is_empty iff nothing is stored); "
+                  "the run of a call alone is unique. (2) every schedule, per-block protocol: below the write index a slot is published or "
+                  "claimed by exactly one thread in flight, at or above it untouched (the write index counts the claims, claims are unique per "
+                  "block and index); a published bit implies a written slot; the publishing thread finds its own value in its slot; the read at "
+                  "site 506 hands out written slots below the published length only. (3) every schedule, chains: the chain from tail is finite, "
+                  "strictly decreasing in block id and every block behind another is full; C05_detached_chains_have_one_owner (J4): the chains "
+                  "hanging off tail and off every clearing thread are pairwise disjoint. (4a) every schedule, WITH OR WITHOUT late claims - "
+                  "uniqueness of delivery: C05_no_identity_cleared_twice (each identity is counted at most once over all clearing reads of all "
+                  "threads, calls in progress included), C05_identity_in_one_slot, C05_no_fabrication (every slot value and every value handed to "
+                  "a clear is the value a push call of the program was given, tagged with that call's thread and index). (4b) "
+                  "C05_conservation_except_late_claim, every schedule whose ghost flag `late` is still false (= no fetch_add returned an index "
+                  "< B on a block not reachable from tail): every COMPLETED push call has its identity in a published slot of exactly one block, "
+                  "and that block is still owned (reachable from tail, or from the clearer that detached it and has not read it yet) or else the "
+                  "value has been handed to a clear - never both, at most once; retired blocks are complete. C05_conservation_on_model_runs: "
+                  "known_class c = None implies this invariant at the end of the model's run of case c. The open finding is a theorem "
+                  "(C05_late_claim_refutes) and so are the two repaired defects (the model of the code before each fix violates spec_ok outside "
+                  "the late-claim class, the model after the fix does not). Tied to /repo by (i) replaying generated schedules on the real "
                   "AtomicBucket<Val> through yield points at every shared-memory access and comparing step trace, every slice handed to every "
-                  "callback, every is_empty result and a final sequential read; the executable property spec_ok (no identity cleared twice, no "
-                  "fabrication, written-before-read, snapshot/is_empty completeness, claim order inside a block, pushes = cleared + final read) "
-                  "is evaluated on the implementation's own outputs.")
-    level_note = ("PARTIAL: the conservation theorem over all schedules (C05_conservation_except_late_claim: no identity handed to clears twice; "
-                  "completed pushes = handed-to-clears + resident, outside the late-claim class) is NOT proved; missing are the ownership "
-                  "invariant J4 (a detached chain is walked by exactly the clearer whose CAS succeeded), the identity partition J3, "
-                  "C05_snapshot_sees_completed / C05_is_empty_sound for concurrent runs, that the value carried by a push is the program's "
-                  "value (true by construction of `enter`; not a theorem), and C05_spec_ok_on_model / C05_spec_ok_iff. Those clauses are "
-                  "checked only by evaluation: spec_ok on every replayed schedule (real code) with the model agreeing step by step. Open known "
-                  "finding C05-late-claim (class 1 = the model's run of the case contains a fetch_add returning an index < 64 on a block not "
-                  "reachable from tail; includes benign instances where the clearer still waits for the late claim) suppresses spec failures "
-                  "only on cases in that class. SC interleaving; epoch reclamation (crossbeam-epoch), Block::drop and Backoff are exercised "
-                  "(drop counters: no double drop, no value seen after its destructor) but not modelled; block ids are never reused in the "
-                  "model (what the epoch guard guarantees while a thread is pinned). BLOCK_SIZE = 64 in Exec.v; theorems are for every B >= 1. "
-                  "AtomicBucket has no Drop impl: blocks still in the bucket when it is dropped are leaked with their values (observed, outside "
-                  "this property).")
+                  "callback, every is_empty result and a final sequential read, with the executable property spec_ok evaluated on the "
+                  "implementation's outputs, and (ii) a free-running stress engine on real threads judged by the same property.")
+    level_note = ("NOT proved: what a SNAPSHOT must show under concurrency (C05_snapshot_sees_completed) and C05_is_empty_sound (needs fewer "
+                  "than B threads), and C05_spec_ok_on_model / C05_spec_ok_iff (that the trace-level checker spec_ok accepts every model run "
+                  "outside the class - not even for sequential cases - and what its acceptance means at Prop level): these clauses are checked "
+                  "by evaluation only (spec_ok on every replayed schedule and the stress oracle). The conservation theorem speaks about "
+                  "configurations (slots, ownership, per-thread delivered lists); its reading as 'completed = delivered (+) resident' uses "
+                  "C05_no_fabrication / R3 (every completed push call has a published slot). Open known finding C05-late-claim (class 1 = the "
+                  "model's run of the case sets the ghost flag `late`; includes benign instances where the clearer still waits for the late "
+                  "claim) suppresses spec failures only on cases in that class; in the stress engine a value handed to nobody is excused only "
+                  "if some concurrent clear_with call overlapped that push on a logical clock. SC interleaving; epoch reclamation "
+                  "(crossbeam-epoch), Block::drop and Backoff are exercised (drop counters: no double drop, no value seen after its destructor) "
+                  "but not modelled; block ids are never reused in the model (what the epoch guard guarantees while a thread is pinned). "
+                  "BLOCK_SIZE = 64 in Exec.v; theorems are for every B >= 1. AtomicBucket has no Drop impl: blocks still in the bucket when it "
+                  "is dropped are leaked with their values (observed, outside this property).")
     rule = ("2-4 threads with 1-3 calls each drawn from the mixes {2 pushers | clearer}, {pusher | clearer | snapshot}, {2 pushers at "
             "hand-over | snapshot}, {2 clearers | pusher}, plus is_empty callers; half of the cases start with a sequential prefix of 62-64 "
             "pushes by one thread so that the raced suffix runs across block hand-over; schedules uniform, bursty or with out-of-range "
